@@ -717,6 +717,10 @@ fn one(args: &[String]) {
     let tier = parse_tier(&arg_val(args, "--tier").unwrap_or("quick".into()));
     let vseed: u64 = std::env::var("VERIF_SEED").ok().and_then(|s| s.parse().ok()).unwrap_or(1);
     let trace = args.iter().any(|a| a == "--trace");
+    // --pre k: run index k first in the same process (hunting state carried between runs)
+    if let Some(pre) = arg_val(args, "--pre").and_then(|s| s.parse::<u64>().ok()) {
+        let _ = run_case(fam, tier, Choices::from_seed(run_seed(vseed, fam.name, pre)), false);
+    }
     let seed = run_seed(vseed, fam.name, idx);
     let r = run_case(fam, tier, Choices::from_seed(seed), trace);
     for l in &r.trace {
